@@ -30,6 +30,7 @@ def parseEvents (arr : Array Json) : Except String (List EventH) := do
         match vs with
         | [v] => out := out ++ [.assign p (.plain v) false]
         | _ => throw "plain needs one value"
+      | "skip" => out := out ++ [.assignSkip p]
       | "sync" =>
         match vs with
         | [v] => out := out ++ [.assignSync p v]
@@ -160,6 +161,9 @@ def eventLabels (c : Cfg) (e : Env) (sh : StH) : EventH → List String
   | .trigP p =>
     [if (sh.core.asyncRefs p).isSome then "trigger:linked-parameter:cancels-registered"
      else if (sh.core.refs p).isSome then "trigger:linked-parameter:unlinks" else "trigger:plain-parameter"]
+  | .assignSkip p =>
+    [if (sh.core.asyncRefs p).isSome then "assign:skipping-reference:cancels-registered"
+     else if (sh.core.refs p).isSome then "assign:skipping-reference:replaces-link" else "assign:skipping-reference"]
   | .assignSync p _ =>
     [if (sh.core.asyncRefs p).isSome then "assign:sync-reference:cancels-registered"
      else if (sh.core.refs p).isSome then "assign:sync-reference:replaces-link" else "assign:sync-reference"] ++
@@ -188,6 +192,7 @@ def coreEvent : EventH → Option Event
   | .trigC => none
   | .trigP _ => none
   | .assignSync _ _ => none
+  | .assignSkip _ => none
 
 def handleParam (case impl : Json) : Except String Json := do
   let np ← getNat case "np"
